@@ -8,6 +8,7 @@ import (
 	"strings"
 
 	jsonpatch "github.com/evanphx/json-patch/v5"
+	kjson "sigs.k8s.io/json"
 	"k8s.io/apimachinery/pkg/api/meta"
 	kerrors "k8s.io/apimachinery/pkg/api/errors"
 	metav1 "k8s.io/apimachinery/pkg/apis/meta/v1"
@@ -154,7 +155,10 @@ func (s *Store) fromU(u *unstructured.Unstructured, into runtime.Object) error {
 	if err != nil {
 		return err
 	}
-	if err := json.Unmarshal(b, into); err != nil {
+	// Decode as the real client does (sigs.k8s.io/json, the decoder behind
+	// the Kubernetes JSON serializer): slices come out with spare capacity,
+	// which is what makes an aliasing append in a reconciler observable.
+	if err := kjson.UnmarshalCaseSensitivePreserveInts(b, into); err != nil {
 		return err
 	}
 	return nil
